@@ -221,6 +221,22 @@ VARIANTS = [
                  "        self.object_cache = RegionViewerObjectCacheChain([])\n\n"
                  "    def _is_localid_selected(self, localid: int):\n"},
      ]},
+    # ---- round 4
+    {"name": "R4 resolve_futures only skips cancelled futures", "file": OM, "expect": "C14.R4",
+     "old": "            if not fut.done():\n", "new": "            if not fut.cancelled():\n"},
+    {"name": "P R4 resolve_futures tolerates InvalidStateError instead of testing done()", "file": OM, "expect": "silent",
+     "old": "            if not fut.done():\n                fut.set_result(obj)\n",
+     "new": "            try:\n                fut.set_result(obj)\n            except asyncio.InvalidStateError:\n                pass\n"},
+    {"name": "R6 orphan loop iterates an alias of the live child list", "file": OM, "expect": "C14.R6",
+     "old": "        former_child_ids = obj.ChildIDs[:]\n        for child_id in former_child_ids:\n            child_obj",
+     "new": "        former_child_ids = obj.ChildIDs\n        for child_id in list(former_child_ids):\n            child_obj"},
+    {"name": "R6 orphans of an untracked killed id collected only under a side condition", "file": OM, "expect": "C14.R6",
+     "old": "            child_ids = region_state.collect_orphans(local_id)\n",
+     "new": "            if region_state.missing_locals:\n                child_ids = region_state.collect_orphans(local_id)\n"
+            "            else:\n                child_ids = []\n"},
+    {"name": "P R6 collected orphans frozen into a tuple", "file": OM, "expect": "silent",
+     "old": "            child_ids = region_state.collect_orphans(local_id)\n",
+     "new": "            child_ids = tuple(region_state.collect_orphans(local_id))\n"},
     # ---- documented limits
     {"name": "X missing_locals bookkeeping dropped (not observed by the statement)", "file": OM, "expect": "miss",
      "old": "        self.missing_locals -= {obj.LocalID}\n", "new": ""},
